@@ -24,13 +24,14 @@ import (
 )
 
 type simCfg struct {
-	richID    bool // SessionID with SubID / LocationID / Qualifier
-	begin     string
-	initiator bool
-	chunk     int
-	store     string // memory | file
-	hb        int
-	settings  map[string]string
+	peerNoReset bool // the peer's Logons carry ResetSeqNumFlag=N when they do not ask for a reset
+	richID      bool // SessionID with SubID / LocationID / Qualifier
+	begin       string
+	initiator   bool
+	chunk       int
+	store       string // memory | file
+	hb          int
+	settings    map[string]string
 }
 
 func (c simCfg) String() string {
@@ -104,6 +105,11 @@ func drawExtras(t *rapid.T, c *stats.Collector, cfg *simCfg) {
 		cfg.settings[config.EnableLastMsgSeqNumProcessed] = "Y"
 		c.Class("setting:EnableLastMsgSeqNumProcessed")
 	}
+	if rapid.IntRange(0, 2).Draw(t, "extra-peer-says-no-reset") == 0 {
+		// the counterparty writes ResetSeqNumFlag=N on its Logons instead of omitting the field
+		cfg.peerNoReset = true
+		c.Class("setting:peer-logon-with-141=N")
+	}
 	if rapid.IntRange(0, 2).Draw(t, "extra-rich-identity") == 0 {
 		// optional identity fields: stamped on every outbound header and part of the store key
 		cfg.richID = true
@@ -151,6 +157,7 @@ func newSim(t vk.TB, c *stats.Collector, cfg simCfg) *sim {
 	}
 	s.r = r
 	s.p = peer.New(cfg.begin, "PEER", "ENG")
+	s.p.ExplicitNoReset = cfg.peerNoReset
 	return s
 }
 
